@@ -309,6 +309,19 @@ Proof.
   unfold mem. induction l as [|a l IH]; cbn; [reflexivity|]. destruct (Nat.eqb_spec i a); cbn; auto.
 Qed.
 
+Lemma mem_in_pre i l : mem i l = true <-> In i l.
+Proof.
+  unfold mem. rewrite existsb_exists. split.
+  - intros (x & Hx & E). apply Nat.eqb_eq in E. subst. exact Hx.
+  - intros H. exists i. split; [exact H|apply Nat.eqb_refl].
+Qed.
+
+Lemma dedup_nodup l : NoDup l -> dedup l = l.
+Proof.
+  induction 1 as [|x l Hni Hnd IH]; cbn; [reflexivity|].
+  destruct (mem x l) eqn:E; [apply mem_in_pre in E; contradiction|]. rewrite IH. reflexivity.
+Qed.
+
 Lemma mem_in i l : mem i l = true <-> In i l.
 Proof.
   unfold mem. rewrite existsb_exists. split.
@@ -408,11 +421,11 @@ Proof.
   - do 3 eexists; splits; try reflexivity; exact R.
   - cbn [mstep]. fields. estep.
     do 3 eexists; splits; try reflexivity.
-    assert (Hlive : filter (fun i => negb (is_closed s i)) (mlist s) = opened a).
-    { rewrite (rs_mlist _ _ _ R). apply filter_all. intros x Hx. unfold is_closed. rewrite (rs_closedw _ _ _ R).
+    assert (Hlive : dedup (filter (fun i => negb (is_closed s i)) (mlist s)) = opened a).
+    { rewrite (rs_mlist _ _ _ R). rewrite filter_all; [apply dedup_nodup; exact (rs_open_nd _ _ _ R)|]. intros x Hx. unfold is_closed. rewrite (rs_closedw _ _ _ R).
       destruct (rs_open _ _ _ R x Hx) as [-> _]. reflexivity. }
     unfold is_closed in Hlive |- *. fields. rewrite Hlive.
-    destruct R. constructor; fields; auto; try (constructor; fail); try (intros ? ? []; fail); try (intros ? []; fail).
+    destruct R as [rs_rt rs_nmap rs_closed_empty rs_mlist rs_closedw rs_res rs_nd_exits rs_keys rs_vals rs_names rs_open_nd rs_open rs_built rs_seen]. constructor; fields; auto; try (constructor; fail); try (intros ? ? []; fail); try (intros ? []; fail).
     + congruence.
     + rewrite map_app, map_map. cbn [fst]. rewrite map_id. congruence.
     + rewrite map_app, map_map. cbn [fst]. rewrite map_id. apply NoDup_app_intro; auto.
@@ -455,7 +468,7 @@ Proof.
         destruct (Nat.eqb_spec j i); [|reflexivity]. subst j. apply lookup_some_in in Hj.
         apply (rs_names _ _ _ R) in Hj. tauto. }
     rewrite Hnm. do 3 eexists; splits; try reflexivity.
-    destruct R. constructor; fields; auto.
+    destruct R as [rs_rt rs_nmap rs_closed_empty rs_mlist rs_closedw rs_res rs_nd_exits rs_keys rs_vals rs_names rs_open_nd rs_open rs_built rs_seen]. constructor; fields; auto.
     + intros Hc. destruct (rs_closed_empty Hc) as [-> ->]. split; reflexivity.
     + congruence.
     + cbn [map fst]. congruence.
@@ -509,7 +522,7 @@ Proof.
       rewrite (rs_mlist _ _ _ R), (remove_notin _ _ Hio).
       assert (Hne : forall i0, In i0 (opened a) -> (i0 =? i) = false).
       { intros i0 H0. apply Nat.eqb_neq. intros ->. exact (Hio H0). }
-      destruct R. constructor; fields; auto.
+      destruct R as [rs_rt rs_nmap rs_closed_empty rs_mlist rs_closedw rs_res rs_nd_exits rs_keys rs_vals rs_names rs_open_nd rs_open rs_built rs_seen]. constructor; fields; auto.
       * discriminate.
       * congruence.
       * cbn [map fst]. congruence.
@@ -537,7 +550,7 @@ Proof.
     assert (Hkey : (n =? 0) = false -> ~ In n (map fst (names a))).
     { intros Hn0. rewrite Hn0 in Hdup. cbn [negb andb] in Hdup. apply lookup_none_notin.
       destruct (lookup n (names a)); [discriminate|reflexivity]. }
-    destruct R. constructor; fields; auto.
+    destruct R as [rs_rt rs_nmap rs_closed_empty rs_mlist rs_closedw rs_res rs_nd_exits rs_keys rs_vals rs_names rs_open_nd rs_open rs_built rs_seen]. constructor; fields; auto.
     + discriminate.
     + congruence.
     + destruct (n =? 0) eqn:Hn0; [exact rs_keys|]. cbn [map fst]. constructor; auto.
@@ -634,3 +647,232 @@ Example seq_example :
     [ROk; RErrDup; RLook (Some 1); ROk; ROk; RExit (Some 7); RLook None; ROk; RLook (Some 3); ROk; ROk; RExit (Some 5); RExit (Some 5);
      RErrClosed; RErrClosed; RErrClosed; RErrClosed; RLook None].
 Proof. cbv zeta. split; [cbn; intuition lia|vm_compute; reflexivity]. Qed.
+(* ================================================================== 4. the CAS winner is unique: resources closed / notification fired once *)
+(* number of resource closes of instance [i] that the rest [ms] of an operation is committed to (a CAS on i guards them) *)
+Fixpoint pend (i : nat) (ms : list micro) : nat :=
+  match ms with
+  | [] => 0
+  | MCas j _ :: k => if j =? i then 0 else pend i k
+  | MRes j :: k => (if j =? i then 1 else 0) + pend i k
+  | _ :: k => pend i k
+  end.
+
+(* shape of the rest of an operation *)
+Fixpoint wfk (ms : list micro) : Prop :=
+  match ms with
+  | [] => True
+  | MCas i _ :: k => exists e, k = [MDelete i; MRes i; MRet e]
+  | MChkRt :: k | MRegister _ _ :: k | MRtCas _ :: k | MLookup _ :: k | MLoad _ :: k | MRet _ :: k =>
+      (forall j, pend j k = 0) /\ wfk k
+  | _ :: k => wfk k
+  end.
+
+Definition b2n (b : bool) : nat := if b then 1 else 0.
+
+Lemma wfk_compile o : wfk (compile o) /\ forall j, pend j (compile o) = 0.
+Proof.
+  destruct o as [[|] n i|n|i c|i|c|h]; cbn; splits; auto; try (eexists; reflexivity); intros j;
+    try destruct (i =? j); reflexivity.
+Qed.
+
+Lemma pend_close_fail i e j : pend j (close_fail i e) = 0.
+Proof. cbn. destruct (i =? j); reflexivity. Qed.
+
+Lemma count_cons i j l : count i (j :: l) = b2n (i =? j) + count i l.
+Proof. unfold count. cbn. destruct (i =? j); reflexivity. Qed.
+
+Lemma count_app i l1 l2 : count i (l1 ++ l2) = count i l1 + count i l2.
+Proof. unfold count. rewrite filter_app, app_length. reflexivity. Qed.
+
+Lemma dedup_in i l : In i (dedup l) <-> In i l.
+Proof.
+  induction l as [|a l IH]; cbn; [tauto|]. destruct (mem a l) eqn:E.
+  - apply mem_in in E. rewrite IH. split; [auto|]. intros [->|H]; auto.
+  - cbn. rewrite IH. tauto.
+Qed.
+
+Lemma dedup_NoDup l : NoDup (dedup l).
+Proof.
+  induction l as [|a l IH]; cbn; [constructor|]. destruct (mem a l) eqn:E; [exact IH|].
+  constructor; [|exact IH]. rewrite dedup_in. intros H. apply mem_in in H. congruence.
+Qed.
+
+Lemma count_le_1 i l : NoDup l -> count i l = b2n (mem i l).
+Proof. intros H. rewrite count_nodup by exact H. reflexivity. Qed.
+
+(* one micro step: shape kept, and the balance  pending + closed-resources  follows the closed word *)
+Lemma mstep_balance s m k : is_ret m = false -> wfk (m :: k) ->
+  wfk (snd (mstep s m k)) /\
+  forall i, pend i (snd (mstep s m k)) + count i (res_log (fst (mstep s m k))) + b2n (is_closed s i)
+            = pend i (m :: k) + count i (res_log s) + b2n (is_closed (fst (mstep s m k)) i).
+Proof.
+  intros Hr Hw. destruct m; try discriminate Hr; cbn [mstep]; cbn [wfk] in Hw.
+  - (* MChkRt *) destruct Hw as [Hp Hw]. destruct (rt_closed s); cbn [fst snd]; (split; [cbn; auto|]); intros i; cbn [pend]; rewrite ?Hp; cbn; lia.
+  - (* MBuild *) cbn [fst snd res_log]. split; [exact Hw|]. intros j. unfold is_closed. cbn [closedw pend]. lia.
+  - (* MRegister *) destruct Hw as [Hp Hw].
+    assert (Hf : forall e, wfk (close_fail i e)) by (intros e; cbn; eexists; reflexivity).
+    destruct (nmap s) as [m|]; [destruct (negb (n =? 0) && is_some (lookup n m))|]; cbn [fst snd res_log];
+      (split; [auto|]); intros j; rewrite ?pend_close_fail; cbn [pend]; rewrite ?Hp; unfold is_closed; cbn [closedw]; lia.
+  - (* MAttach *) cbn [fst snd res_log]. split; [exact Hw|]. intros j. unfold is_closed. cbn [closedw pend]. lia.
+  - (* MCas *) destruct Hw as [e ->]. unfold is_closed. destruct (lookup i (closedw s)) eqn:Hl; cbn [is_some fst snd].
+    + split; [cbn; auto|]. intros j. cbn [pend]. destruct (Nat.eqb_spec i j); cbn; lia.
+    + split; [cbn; auto|]. intros j. cbn [pend set_closedw res_log closedw lookup].
+      rewrite (Nat.eqb_sym j i). destruct (Nat.eqb_spec i j); [subst; rewrite Hl|]; cbn; lia.
+  - (* MDelete *) cbn [fst snd res_log]. split; [exact Hw|]. intros j. unfold is_closed. cbn [closedw pend]. lia.
+  - (* MRes *) cbn [fst snd res_log]. split; [exact Hw|]. intros j. unfold is_closed. cbn [closedw pend]. rewrite count_cons.
+    rewrite (Nat.eqb_sym j i). unfold b2n. destruct (i =? j); lia.
+  - (* MLookup *) destruct Hw as [Hp Hw]. cbn [fst snd]. split; [cbn; auto|]. intros j. cbn [pend]. rewrite Hp. lia.
+  - (* MLoad *) destruct Hw as [Hp Hw]. cbn [fst snd]. split; [cbn; auto|]. intros j. cbn [pend]. rewrite Hp. lia.
+  - (* MRtCas *) destruct Hw as [Hp Hw]. destruct (rt_closed s); cbn [fst snd res_log]; (split; [cbn; auto|]); intros j; cbn [pend]; rewrite ?Hp;
+      unfold is_closed; cbn [closedw]; lia.
+  - (* MStoreClose *) cbn [fst snd res_log]. split; [exact Hw|]. intros j. cbn [pend]. unfold is_closed. cbn [closedw].
+    set (live := dedup (filter (fun i => negb (is_some (lookup i (closedw s)))) (mlist s))).
+    rewrite lookup_app_map, count_app. rewrite (count_le_1 j live) by apply dedup_NoDup.
+    destruct (mem j live) eqn:Hm; cbn [b2n is_some].
+    + apply mem_in in Hm. unfold live in Hm. apply (proj1 (dedup_in _ _)) in Hm. apply filter_In in Hm. destruct Hm as [_ Hm]. apply negb_true_iff in Hm.
+      rewrite Hm. cbn. lia.
+    + lia.
+Qed.
+
+Definition invB (s : impl) : Prop := forall i, count i (notified s) <= count i (res_log s).
+Definition invC (s : impl) : Prop := forall i, In i (attached s) -> In i (notif s) \/ 1 <= count i (notified s).
+
+Lemma count_filter_le i f l : count i (filter f l) <= count i l.
+Proof.
+  unfold count. induction l as [|a l IH]; cbn; [lia|]. destruct (f a); cbn; destruct (i =? a); cbn; lia.
+Qed.
+
+Lemma count_pos i l : In i l -> 1 <= count i l.
+Proof.
+  unfold count. induction l as [|a l IH]; cbn; [tauto|]. intros [->|H].
+  - rewrite Nat.eqb_refl. cbn. lia.
+  - destruct (i =? a); cbn; [lia|auto].
+Qed.
+
+Lemma mstep_BC s m k : invB s -> invC s -> invB (fst (mstep s m k)) /\ invC (fst (mstep s m k)).
+Proof.
+  intros HB HC. destruct m; cbn [mstep];
+    try (repeat match goal with |- context [if ?b then _ else _] => destruct b
+                         | |- context [match ?x with Some _ => _ | None => _ end] => destruct x end;
+         cbn [fst]; split; assumption); cbn [fst].
+  - (* MAttach *) split; [exact HB|]. intros j. cbn [attached notif notified]. intros [->|H]; [left; left; reflexivity|].
+    destruct (HC j H); [left; right; assumption|right; assumption].
+  - (* MRes *) split.
+    + intros j. cbn [notified res_log]. specialize (HB j). rewrite count_cons.
+      destruct (mem i (notif s)); [rewrite count_cons|]; lia.
+    + intros j. cbn [attached notif notified]. intros H. destruct (Nat.eq_dec j i) as [->|Hne].
+      * destruct (mem i (notif s)) eqn:Hm; [right; rewrite count_cons, Nat.eqb_refl; cbn; lia|].
+        destruct (HC i H) as [Hin|Hc]; [apply mem_in in Hin; congruence|right; exact Hc].
+      * destruct (HC j H) as [Hin|Hc]; [left; apply in_remove; auto|right].
+        destruct (mem i (notif s)); [rewrite count_cons|]; lia.
+  - (* MStoreClose *) set (live := dedup (filter (fun i => negb (is_closed s i)) (mlist s))). split.
+    + intros j. cbn [notified res_log]. rewrite !count_app. specialize (HB j).
+      pose proof (count_filter_le j (fun i => mem i (notif s)) live). lia.
+    + intros j. cbn [attached notif notified]. intros H. rewrite count_app.
+      destruct (HC j H) as [Hin|Hc]; [|right; lia].
+      destruct (mem j live) eqn:Hm.
+      * right. apply mem_in in Hm. assert (In j (filter (fun i => mem i (notif s)) live)).
+        { apply filter_In. split; [exact Hm|apply mem_in; exact Hin]. }
+        apply count_pos in H0. lia.
+      * left. apply filter_In. split; [exact Hin|]. rewrite Hm. reflexivity.
+Qed.
+
+Definition pendt (i : nat) (t : thr) : nat := match cur t with Some (_, _, ms) => pend i ms | None => 0 end.
+Definition wft (t : thr) : Prop := match cur t with Some (_, _, ms) => wfk ms | None => True end.
+
+Record cinv (c : config) : Prop := {
+  ci_wf : Forall wft (thrs c);
+  ci_bal : forall i, list_sum (map (pendt i) (thrs c)) + count i (res_log (st c)) = b2n (is_closed (st c) i);
+  ci_B : invB (st c);
+  ci_C : invC (st c) }.
+
+Lemma Forall_replace_nth {A} (P : A -> Prop) k x l : Forall P l -> P x -> Forall P (replace_nth k x l).
+Proof.
+  intros H Hx. revert k. induction H as [|a l Ha Hl IH]; intros [|k]; cbn; constructor; auto.
+Qed.
+
+Lemma tstep_cinv a c k c' : cinv c -> tstep a c k = Some c' -> cinv c'.
+Proof.
+  intros [Hwf Hbal HB HC]. unfold tstep. destruct (nth_error (thrs c) k) as [t|] eqn:Hn; [|discriminate].
+  destruct (a && blocked (hold c) k); [discriminate|].
+  assert (Hwt : wft t) by (rewrite Forall_forall in Hwf; apply Hwf; eapply nth_error_In; eauto).
+  destruct (cur t) as [[[o inv] ms]|] eqn:Hc.
+  - destruct ms as [|m ms]; [discriminate|].
+    assert (Hpt : forall i, pendt i t = pend i (m :: ms)) by (intros i; unfold pendt; rewrite Hc; reflexivity).
+    unfold wft in Hwt. rewrite Hc in Hwt.
+    destruct (is_ret m) eqn:Hr.
+    + destruct m; try discriminate Hr. intros H. inversion H; subst; clear H. cbn [wfk] in Hwt. destruct Hwt as [Hp _].
+      constructor; cbn [thrs st]; auto.
+      * apply Forall_replace_nth; [exact Hwf|exact I].
+      * intros i. pose proof (sum_replace_nth (pendt i) k {| todo := todo t; cur := None |} _ _ Hn) as Hs.
+        rewrite Hpt in Hs. cbn [pend] in Hs. rewrite Hp in Hs. unfold pendt at 3 in Hs. cbn [cur] in Hs.
+        specialize (Hbal i). lia.
+    + pose proof (mstep_balance (st c) m ms Hr Hwt) as [Hw' Hb'].
+      pose proof (mstep_BC (st c) m ms HB HC) as [HB' HC'].
+      assert (Hgen : forall s' ms', mstep (st c) m ms = (s', ms') -> forall hd hi cl,
+                cinv {| st := s'; thrs := replace_nth k {| todo := todo t; cur := Some (o, inv, ms') |} (thrs c);
+                        clk := cl; hist := hi; hold := hd |}).
+      { intros s' ms' E hd hi cl. rewrite E in *. cbn [fst snd] in *. constructor; cbn [thrs st]; auto.
+        - apply Forall_replace_nth; [exact Hwf|exact Hw'].
+        - intros i. pose proof (sum_replace_nth (pendt i) k {| todo := todo t; cur := Some (o, inv, ms') |} _ _ Hn) as Hs.
+          rewrite Hpt in Hs. unfold pendt at 3 in Hs. cbn [cur] in Hs. specialize (Hbal i). specialize (Hb' i). lia. }
+      destruct m; try discriminate Hr; intros H;
+        (destruct (mstep (st c) _ ms) as [s' ms'] eqn:E; inversion H; subst; eapply Hgen; reflexivity).
+  - destruct (todo t) as [|o rest] eqn:Hd; [discriminate|]. intros H. inversion H; subst; clear H.
+    destruct (wfk_compile o) as [Hw Hp].
+    constructor; cbn [thrs st]; auto.
+    + apply Forall_replace_nth; [exact Hwf|exact Hw].
+    + intros i. pose proof (sum_replace_nth (pendt i) k {| todo := rest; cur := Some (o, clk c, compile o) |} _ _ Hn) as Hs.
+      assert (E1 : pendt i t = 0) by (unfold pendt; rewrite Hc; reflexivity).
+      assert (E2 : pendt i {| todo := rest; cur := Some (o, clk c, compile o) |} = 0) by (unfold pendt; cbn [cur]; apply Hp).
+      specialize (Hbal i). lia.
+Qed.
+
+Lemma run_sched_cinv a sched : forall c c', cinv c -> run_sched a c sched = Some c' -> cinv c'.
+Proof.
+  induction sched as [|k r IH]; intros c c' Hi H; cbn in H.
+  - inversion H; subst. exact Hi.
+  - destruct (tstep a c k) as [c1|] eqn:Ht; [|discriminate]. eapply IH; [|exact H]. eapply tstep_cinv; eauto.
+Qed.
+
+(* states from which the concurrent phase may start: nothing half-closed *)
+Definition base_ok (s : impl) : Prop :=
+  (forall i, count i (res_log s) = b2n (is_closed s i)) /\ invB s /\ invC s.
+
+Lemma base_ok_impl0 : base_ok impl0.
+Proof. unfold base_ok, invB, invC. cbn. splits; auto; tauto. Qed.
+
+Lemma init_cinv s prog : base_ok s -> cinv (init s prog).
+Proof.
+  intros (H1 & HB & HC). constructor; cbn [init thrs st]; auto.
+  - apply Forall_forall. intros t Ht. apply in_map_iff in Ht. destruct Ht as (ops & <- & _). exact I.
+  - intros i. rewrite <- H1. assert (E : list_sum (map (pendt i) (map mk prog)) = 0).
+    { induction prog; cbn; auto. }
+    rewrite E. reflexivity.
+Qed.
+
+Lemma finished_no_pending c i : finished c = true -> list_sum (map (pendt i) (thrs c)) = 0.
+Proof.
+  unfold finished. induction (thrs c) as [|t l IH]; [reflexivity|]. cbn [forallb map].
+  intros H. apply andb_true_iff in H. destruct H as [Ht Hl]. specialize (IH Hl).
+  assert (E : pendt i t = 0) by (unfold thr_done in Ht; unfold pendt; destruct (cur t); [discriminate|reflexivity]).
+  change (list_sum (pendt i t :: map (pendt i) l)) with (pendt i t + list_sum (map (pendt i) l)). lia.
+Qed.
+
+(* C10_close_once *)
+Lemma close_once a s0 prog sched c : base_ok s0 -> run_sched a (init s0 prog) sched = Some c ->
+  forall i,
+    count i (res_log (st c)) <= 1 /\ count i (notified (st c)) <= 1 /\
+    (count i (res_log (st c)) = 1 -> is_closed (st c) i = true) /\
+    (finished c = true -> is_closed (st c) i = true ->
+       count i (res_log (st c)) = 1 /\
+       (In i (attached (st c)) -> ~ In i (notif (st c)) -> count i (notified (st c)) = 1)).
+Proof.
+  intros Hb Hr i. pose proof (run_sched_cinv _ _ _ _ (init_cinv s0 prog Hb) Hr) as [Hwf Hbal HB HC].
+  specialize (Hbal i). specialize (HB i). unfold b2n in Hbal. splits.
+  - destruct (is_closed (st c) i); lia.
+  - destruct (is_closed (st c) i); lia.
+  - intros H. destruct (is_closed (st c) i); [reflexivity|lia].
+  - intros Hf Hcl. rewrite (finished_no_pending c i Hf), Hcl in Hbal. split; [lia|].
+    intros Hat Hno. destruct (HC i Hat) as [H|H]; [contradiction|lia].
+Qed.
